@@ -142,7 +142,11 @@ VARIANTS = {
     "pk-R5-eq-instead-of-ne": ("packet.rs", rep(PK, "if !frame.not_error_flag != self.is_error {", "if frame.not_error_flag == self.is_error {"), None),
     "pk-R6-new-iflet-first": ("packet.rs", rep(PK, NEW_START + NEW_LET, NEW_LET + "\n" + NEW_START.rstrip("\n") + "\n"), None),
     "pk-R7-le-flipped": ("packet.rs", rep(PK, "if frame_id >= self.expected_frame_count {", "if self.expected_frame_count <= frame_id {"), None),
+    "pk-R8-build-guard-flipped": ("packet.rs", rep(PK, "if self.frames.len() != self.expected_frame_count as usize {", "if self.expected_frame_count as usize != self.frames.len() {"), None),
     # ---- packet.rs, breaking
+    "pk-B9-build-start-index-swapped": ("packet.rs", rep(PK, "let start_index = if frame.multi_frame_flag { 1 } else { 0 };", "let start_index = if frame.multi_frame_flag { 0 } else { 1 };"), "src_build_eq"),
+    "pk-B10-build-guard-less-than": ("packet.rs", rep(PK, "if self.frames.len() != self.expected_frame_count as usize {", "if self.frames.len() < self.expected_frame_count as usize {"), "src_build_eq"),
+    "pk-B11-build-skips-two": ("packet.rs", rep(PK, "let start_index = if frame.multi_frame_flag { 1 } else { 0 };", "let start_index = if frame.multi_frame_flag { 2 } else { 0 };"), "src_build_eq"),
     "pk-B1-no-start-guard": ("packet.rs", rep(PK, G_START + G_MULTI, G_MULTI), "src_addFrame_ok_iff"),
     "pk-B2-off-by-one": ("packet.rs", rep(PK, "if frame_id >= self.expected_frame_count {", "if frame_id > self.expected_frame_count {"), "src_addFrame_ok_iff"),
     "pk-B3-wrong-reason": ("packet.rs", rep(PK, "            return Err(PacketBuilderError::WrongFrameType);", "            return Err(PacketBuilderError::DeviceAddressMismatch);"), "src_addFrame_err_applies"),
